@@ -545,12 +545,12 @@ table_domain(void) {
       if ((mask & 1023u) == 0)
         continue;
       if (!drv.thorough) {
-        /* quick: every entry set for the configurations without filter / with bloom 10; for bloom 1 and
-         * bloom 50 the sets of size <= 2 or >= 8 plus every 7th other set */
+        /* quick: every entry set for the configurations without filter / with bloom 10 and no block cache;
+         * for bloom 1, bloom 50 or with a block cache the sets of size <= 2 or >= 8 plus every 7th other set */
         int pc = __builtin_popcount(mask & 1023u);
         cfg_t g;
         decode_cfg(c, &g);
-        if (g.filter >= 2 && !(pc <= 2 || pc >= 8 || (mask + (unsigned)c) % 7 == 0))
+        if ((g.filter >= 2 || g.cache) && !(pc <= 2 || pc >= 8 || (mask + (unsigned)c) % 7 == 0))
           continue;
         if ((mask & 1024u) && !(pc <= 1 || pc >= 8))
           continue; /* all-large value pattern: only the smallest and the largest sets */
@@ -1259,8 +1259,8 @@ main(int argc, char **argv) {
     replay(drv.replay);
   } else {
     if (!drv.thorough)
-      drv_note("quick tier subsets: tbl = every entry set x the 288 configurations with no filter or bloom 10, and the entry sets "
-               "of size <=2 or >=8 plus every 7th other set x the 288 configurations with bloom 1 or bloom 50; the second "
+      drv_note("quick tier subsets: tbl = every entry set x the 144 configurations with {no filter | bloom 10} and no block "
+               "cache, and the entry sets of size <=2 or >=8 plus every 7th other set x the other 432 configurations; the second "
                "value pattern (all values 300 bytes) only for sets of size <=1 or >=8; "
                "sep = full domain; Snappy strings = length <=17 over {a,b} and <=9 over {a,b,c}; Snappy patterns = 12 "
                "patterns x 2 variants x lengths {0..600, within 40 of 2^10..2^16, within 300 of 65536, multiples of 499, "
